@@ -5,6 +5,7 @@ mod cmd_model;
 mod cmd_num;
 mod cmd_types;
 mod cmd_ws;
+mod guard;
 
 fn main() {
   std::panic::set_hook(Box::new(|_| {}));
@@ -12,6 +13,7 @@ fn main() {
   match cmd.as_str() {
     "feel" => cmd_feel::main(),
     "ws" => cmd_ws::main(),
+    "guard" => guard::main(),
     "model" => cmd_model::main(),
     "num" => cmd_num::main(),
     "types" => cmd_types::main(),
